@@ -370,8 +370,9 @@ def prove_kernels(run, prop, tier, lemmas=True):
         sats = {'C09': [(T3, True, True, False), ((False, True, False), False, False, False), (T3, True, True, True)],
                 'C10': [(T3, False, False, False)], 'C11': [(T3, True, True, False), (T3, True, True, True)]}[prop]
     else:
-        cent = [(w, r, False) for w in SUBSETS for r in (True, False)] + [(w, True, True) for w in SUBSETS]
-        sats = [(w, r, k, False) for w in SUBSETS for r in (True, False) for k in (True, False)] + [(w, True, k, True) for w in SUBSETS for k in (True, False)]
+        singles = [(True, False, False), (False, True, False), (False, False, True)]
+        cent = [(w, True, False) for w in SUBSETS] + [(T3, False, False)] + [(w, True, True) for w in [T3] + singles]
+        sats = [(w, True, True, False) for w in SUBSETS] + [(T3, False, False, False), (T3, True, False, False)] + [(w, True, True, True) for w in [T3] + singles]
         if prop == 'C11':
             cent = [(T3, True, False), (T3, False, False), (T3, True, True)]
             sats = [(T3, True, True, False), (T3, False, False, False), (T3, True, True, True)]
